@@ -70,6 +70,9 @@ QUESTIONS = [
     ("base_sys", "newton", "imperial"), ("base_sys", "stone", "mks"),
     ("convert_raw", "dab", "barn"), ("convert_raw", "dab", "meter"), ("convert_raw", "kyd", "meter"),
     ("to_base", "ounce", 3), ("to_base", "vfu2", 2), ("to_base", "stone", 5),
+    # DERIVED spellings (prefixed, plural, symbol-like alias) of units that the history defines later
+    ("parse_units", "vfu0s"), ("convert", "millivfu1", "meter"), ("parse_units", "kilovfu0s / vfu1"),
+    ("convert", "megavf0", "meter"),
     # units that depend on `pound` (redefined by the context 'vredef') at several removes, also through
     # symbols and aliases (reyn = psi * second, psi = force_pound / inch ** 2, force_pound = g_0 * pound)
     ("convert", "reyn", "pascal * second"), ("convert", "kip_per_square_inch", "pascal"),
@@ -275,6 +278,10 @@ def run_history(ops, world, rec, rng, tag, pool=None):
     if fixed_pool:
         pool = fixed_pool
     pool[3] = rng.choice(QUESTIONS[-6:])           # and one question about the name that gets defined later
+    if not fixed_pool:
+        # and one about a derived spelling (prefixed / plural) of a unit that gets defined later
+        pool[6] = rng.choice([q for q in QUESTIONS if any(w in repr(q) for w in
+                                                          ("kilovfu0", "mega vfu1", "vfu0s", "millivfu1", "megavf0"))])
     for op in ops:
         state_before = (ndefs, tuple(stack), system)
         if op == "define":
